@@ -73,7 +73,9 @@ class DocGen:
         self.budget = max_nodes
         self.defined = []       # scalar anchors defined so far (doc order)
         self.map_anchors = []   # map anchors (merge-key sources)
-        self.free_anchors = list(ANCHORS)
+        # with merge keys, some anchor names are spelled like mapping keys
+        self.free_anchors = ["c", "A", "k1", "B"] if mergekeys \
+            else list(ANCHORS)
 
     def scalar(self, allow_anchor=True, strings_only=False):
         rng = self.rng
@@ -129,11 +131,19 @@ class DocGen:
         count = rng.choice([0, 1, 2, 2, 3, 3, 4]) if self.empty_containers \
             else rng.choice([1, 2, 2, 3, 3, 4])
         keys = rng.sample(KEYS, min(count, len(KEYS)))
+        merge = None
+        if self.mergekeys and depth > 0 and self.map_anchors \
+                and rng.random() < 0.35:
+            # decided before the children exist: the anchor is defined
+            # earlier in document order
+            merge = [rng.choice(self.map_anchors)]
         items = []
         for key in keys:
             items.append([S(key), self.node(depth + 1)])
         node = {"t": "m", "i": items, "a": None}
-        if self.mergekeys and items and self.free_anchors \
+        if merge:
+            node["merge"] = merge
+        if self.mergekeys and depth > 0 and items and self.free_anchors \
                 and rng.random() < 0.2 \
                 and all(v["t"] == "s" and not v["a"] for _, v in items):
             name = self.free_anchors.pop(0)
@@ -281,6 +291,8 @@ def block_lines(node, indent=0):
     kind = node["t"]
     out = []
     if kind == "m":
+        for name in node.get("merge") or []:
+            out.append("%s<<: *%s" % (pad, name))
         for key, val in node["i"]:
             ktxt = scalar_text(key)
             vkind = val["t"]
@@ -292,7 +304,7 @@ def block_lines(node, indent=0):
                 out.extend(body)
             elif vkind == "s":
                 out.append("%s%s: %s" % (pad, ktxt, scalar_text(val)))
-            elif not val["i"]:
+            elif not val["i"] and not val.get("merge"):
                 out.append("%s%s: %s" % (
                     pad, ktxt, {"m": "{}", "l": "[]", "S": "!!set {}"}[vkind]))
             elif vkind == "S":
@@ -315,11 +327,14 @@ def block_lines(node, indent=0):
                 out.extend(body)
             elif vkind == "s":
                 out.append("%s- %s" % (pad, scalar_text(val)))
-            elif not val["i"]:
+            elif not val["i"] and not val.get("merge"):
                 out.append("%s- %s" % (
                     pad, {"m": "{}", "l": "[]", "S": "!!set {}"}[vkind]))
             elif vkind == "S":
                 out.append("%s- !!set" % pad)
+                out.extend(block_lines(val, indent + 2))
+            elif vkind == "m" and val.get("a"):
+                out.append("%s- &%s" % (pad, val["a"]))
                 out.extend(block_lines(val, indent + 2))
             else:
                 sub = block_lines(val, indent + 2)
@@ -341,9 +356,11 @@ def flow_text(node):
     if kind == "*":
         return "*" + node["n"]
     if kind == "m":
-        return "{" + ", ".join(
-            "%s: %s" % (flow_text(k), flow_text(v)) for k, v in node["i"]
-        ) + "}"
+        parts = ["<<: *%s" % name for name in node.get("merge") or []]
+        parts += ["%s: %s" % (flow_text(k), flow_text(v))
+                  for k, v in node["i"]]
+        return ("&%s " % node["a"] if node.get("a") else "") + \
+            "{" + ", ".join(parts) + "}"
     if kind == "l":
         return "[" + ", ".join(flow_text(i) for i in node["i"]) + "]"
     if kind == "S":
